@@ -263,8 +263,8 @@ class QuantizedRelu(IQuantizer):
     self.mode = mode
     self.bits = bits
     self.int_bits = int_bits
-    if hasattr(quantizer, "negative_slope") and quantizer.negative_slope != 0:
-      self.is_signed = 1
+    self.is_signed = int(
+        hasattr(quantizer, "negative_slope") and quantizer.negative_slope != 0)
 
   def convert_to_qkeras_quantizer(
       self, use_sigmoid=0, negative_slope=0.0, use_stochastic_rounding=False,
